@@ -86,7 +86,8 @@ def h_orig_cmdt(ex, prop, L, holds=(0,), interval=None, windows='sym'):
             st['holds_left'] -= 1
             st['holding'] = True
             st['cleared'] = False
-            w.inject(n, tp21.can_id(7, tp21.PF_CM, S_ADDR, P_ADDR), tp21.cts(0, st['got'] + 1, pgn0))
+            # a hold carries no meaningful next-packet number (SAE: 0xFF): any value
+            w.inject(n, tp21.can_id(7, tp21.PF_CM, S_ADDR, P_ADDR), tp21.cts(0, ex.fresh_int('hold_next', 0, 255), pgn0))
             w.after(ex.fresh_real('hold_gap', HOLD[0], HOLD[1]), send_cts, 'peer')
             return
         st['holds_left'] = None
